@@ -102,6 +102,8 @@ def make_udt(project, r, name, template_id, handle, feat, depth):
             arr = r.randint(1, 3)
         elif r.random() < 0.3 and feat.get("member_arrays", True):
             arr = r.randint(1, feat.get("max_member_array", 6))
+        while arr > 1 and type_size(project, t) * arr > 8192:
+            arr //= 2           # keep a single structure below ~8 kB per member (nested types multiply quickly)
         al = type_align(project, t)
         maxal = max(maxal, al)
         off = align(off, al)
@@ -291,7 +293,7 @@ def gen_project(r, feat=None):
                     dims = [r.randint(1, max(1, lim // 2)), r.randint(1, 4), r.randint(1, 3)]
             # keep a single tag below 64 kB so that every transfer stays within the run budgets
             es_ = type_size(project, tn)
-            while dims and es_ * _prod(dims) > 65536:
+            while dims and es_ * _prod(dims) > 65536 and max(dims) > 1:
                 k = max(range(len(dims)), key=lambda i: dims[i])
                 dims[k] = max(1, dims[k] // 2)
             t = {"name": nm, "scope": scope, "type": tn, "dims": dims}
